@@ -42,6 +42,10 @@ fn main() {
                 engine::STRICT.store(true, std::sync::atomic::Ordering::Relaxed);
                 i += 1;
             }
+            "--strict-class" => {
+                *engine::STRICT_CLASS.write().unwrap() = Some(args.get(i + 1).cloned().unwrap_or_else(|| usage()));
+                i += 2;
+            }
             "--verif" => {
                 verif = args.get(i + 1).cloned().unwrap_or_else(|| usage());
                 i += 2;
